@@ -561,6 +561,21 @@ def run_case(prop, seed, case):
                 for j in range(rng.choice([1, 2])):
                     do(['create', 'children', str(d_idx), netgen.tok_of_s('x%d' % j), '0', '0', str(rng.choice(info['all_defs']))])
                 do(['remove', 'defs', str(lib), str(d_idx)])
+            if rng.random() < 0.4:
+                # history before the clone: the ports of a cell that is already instanced are listed in another
+                # order (public reorder setter), or a pin is added to an earlier port - the instances then hold
+                # their outer pins in an order that differs from the port order of the cell
+                cands = [d for layer in info['layers'][:-1] for d in layer if len(info['ports'].get(d) or []) >= 2]
+                if cands:
+                    d = rng.choice(cands)
+                    ports = [p for p, _ in info['ports'][d]]
+                    perm = ports[:]
+                    rng.shuffle(perm)
+                    if perm == ports:
+                        perm = ports[1:] + ports[:1]
+                    do(['reorder', 'ports', str(d), str(len(perm))] + [str(x) for x in perm])
+                    if rng.random() < 0.5:
+                        do(['items', 'pins', str(ports[0]), '1'])
             r = rng.random()
             if r < 0.45:
                 root = nl
